@@ -15,8 +15,15 @@ EXPLANATION = (
     "all/any/count/sum/min/max; a Vec that is sorted before any other use. Order-sensitive: first/last/nth/find/"
     "fold, next() outside a loop header, collect into a sequence, a break that lets element data escape, a body "
     "that assigns outer variables, or a body that reaches an external effect (process spawn, file write). "
-    "Order-sensitive sites must be in the allow-table with a reason.")
-DECIDED = ["D1 unordered-iteration inventory with consumer classification", "D2 no clock/randomness/environment reads besides the expiry guard"]
+    "Two order-sensitive shapes are accepted structurally: find/find_map/position whose result is only tested, Some "
+    "leading to an Err return (Err iff some element satisfies the predicate); and an element picked by next() as the "
+    "reference of an all-equal check - in the function's REGION it flows only into ==/!= comparisons and error text, and "
+    "with every `equal` outcome removed whatever remains reachable from a comparison returns an error. Any other "
+    "order-sensitive site must be in the allow-table with a reason (entries name a public function; module-private "
+    "helpers called only from it inherit the entry). D2: clock / randomness / environment reads reachable from the "
+    "anchors are enumerated; a clock read is accepted only when its value flows nowhere but into ordering comparisons "
+    "with a layout's `expires`; any static with interior mutability used on the verification path is a violation.")
+DECIDED = ["D1 unordered-iteration inventory with consumer classification", "D2 no clock/randomness/environment reads besides the expiry guard, no process-wide mutable state"]
 UNDECIDED = ["determinism of the operating system's directory listing beyond glob's sorted contract", "inspection commands themselves"]
 TRUSTED = ["glob returns matches in sorted order", "colliding keys inserted into a map/set from an unordered iteration carry equal values (key ids are intrinsic)"]
 ASSUMPTIONS = ["logging (log::*) is not an observable effect"]
@@ -50,13 +57,9 @@ ALLOW = {
     ("models::metadata::Metablock::verify", "loop:break"):
         "the loop only counts valid authorised signatures and breaks when the countdown reaches 0; the countdown reaches 0 "
         "iff at least `threshold` valid signatures exist, whatever the order (the payload returned is self.metadata, not an element)",
-    ("verifylib::verify_threshold_constraints", "next-outside-loop"):
-        "reference pick for the all-equal agreement check: every link is compared with the reference, so any reference "
-        "yields the same verdict (equality is transitive)",
 }
 # ambient reads accepted: (function path, callee) -> reason
 ALLOW_AMBIENT = {
-    ("verifylib::verify_layout_expiration", "chrono::Utc::now"): "the expiry guard itself (C06); the property fixes an unexpired clock",
 }
 
 
@@ -187,6 +190,9 @@ class Flow:
             loop = self.own_loop(body, bb, t)
             if loop is not None:
                 self.loop_effects(body, loop, bb, t["at"], "loop")
+            elif reference_pick_only_compared(self.ctx, self.fx, body, bb, t):
+                self.add(False, "next-outside-loop:reference-pick", body, at, "an arbitrary element is picked as the reference of an all-equal check: it only "
+                         "flows into ==/!= comparisons (and error text), and every `differs` outcome returns an error, so any pick gives the same verdict")
             else:
                 key = (clean(body.path), "next-outside-loop")
                 self.add(True, "next-outside-loop", body, at, "first element (in hash order) taken by next() outside a loop")
@@ -811,6 +817,92 @@ class Flow:
         return False
 
 
+_PASS = {"std::option::Option::ok_or_else", "std::option::Option::ok_or", "std::ops::Try::branch", "std::ops::Deref::deref", "std::clone::Clone::clone",
+         "std::convert::AsRef::as_ref", "std::borrow::Borrow::borrow", "std::option::Option::as_ref", "std::option::Option::cloned",
+         "std::option::Option::copied", "std::option::Option::map", "std::borrow::ToOwned::to_owned"}
+
+
+def reference_pick_only_compared(ctx, fx, body, bb, t):
+    """The element taken by next() (outside a loop) from an unordered collection is only used as the reference of an all-equal
+    check: in the REGION of the function (private helpers inlined) it flows - through moves, borrows, payload / field reads,
+    lookups of itself in the same collection - only into PartialEq::eq / ne calls and into formatted error text, and every
+    comparison's `differs` edge leads to an Err return."""
+    from ..core import uses_of_local as uol
+    root = fx.root_of(fx.fns[body.key]) if body.key in fx.fns else None
+    if root is None or fx.fns[body.key]["kind"] == "Closure" or t["dst"]["p"]:
+        return False
+    b = ctx.region(None, policy="private", key=root["key"], ps=True)
+    same = [(i, tt) for (i, tt) in b.calls() if callee_name(tt) == callee_name(t) and tt["at"] == t["at"] and b.blocks[i].get("origin_key", body.key) == body.key]
+    if len(same) != 1:
+        return False
+    i0, t0 = same[0]
+    src = b.trace(t0["args"][0], (), lambda x: (callee_name(x) or "").split("::")[-1] in ("keys", "values", "iter"))
+    coll = set()
+    for l in src:
+        if l.kind == "call" and l.data[1]["args"]:
+            coll |= set(root_ids(b, l.data[1]["args"][0]))
+    if not coll:
+        return False
+    work, seen, sinks = [t0["dst"]["l"]], set(), []
+    while work:
+        l = work.pop()
+        if l in seen:
+            continue
+        seen.add(l)
+        for (ub, idx, node) in uol(b, l):
+            if ub not in b.reach:
+                continue
+            if idx >= 0:
+                if node["k"] != "assign":
+                    continue
+                rv = node["rv"]
+                if rv["k"] == "discr":
+                    continue
+                if rv["k"] in ("use", "cast", "ref", "rawptr") or (rv["k"] == "agg" and rv.get("agg") in ("tuple", "array", "closure")):
+                    if node["dst"]["p"] and node["dst"]["l"] != l:
+                        return False          # stored into a field of something else
+                    work.append(node["dst"]["l"])
+                    continue
+                if rv["k"] == "agg" and rv.get("agg") == "adt" and rv.get("variant") in ("Some", "Ok"):
+                    work.append(node["dst"]["l"])
+                    continue
+                return False
+            tt = node
+            if tt["k"] in ("drop", "switch", "goto", "assert"):
+                continue
+            if tt["k"] != "call":
+                return False
+            n = callee_name(tt) or ""
+            ai = [k2 for k2, a in enumerate(tt["args"]) if op_place(a) and op_place(a)["l"] == l]
+            if not ai:
+                continue
+            if n in ("std::cmp::PartialEq::eq", "std::cmp::PartialEq::ne"):
+                sinks.append((ub, tt))
+            elif n in _PASS:
+                work.append(tt["dst"]["l"])
+            elif n in ("std::ops::Index::index", "std::collections::HashMap::get", "std::collections::BTreeMap::get") and ai == [1] \
+                    and set(root_ids(b, tt["args"][0])) <= coll:
+                work.append(tt["dst"]["l"])       # looking the picked key up in the collection it came from
+            elif n.startswith(("core::fmt::", "std::fmt::")) or "fmt::rt::Argument" in n or n == "std::ops::FromResidual::from_residual":
+                continue                          # error text / propagation of the `no element` error
+            else:
+                return False
+    if not sinks:
+        return False
+    # with every `equal` outcome of these comparisons removed, whatever can still be reached from a comparison returns an error
+    equal = set()
+    for (ub, tt) in sinks:
+        for (e, tb, fa) in b.all_edge_facts():
+            if fa[0] == "bool" and fa[1][0] == "call" and fa[1][2] is tt and fa[2] == (not callee_name(tt).endswith("::ne")):
+                equal.add(e)
+    if not equal:
+        return False
+    for (ub, tt) in sinks:
+        if not b._is_err_return_path(ub, tt["target"], set(), 0, root=True, removed_edges=equal):
+            return False
+    return True
+
+
 def allow_owner(fx, cg, fpath, what):
     """The allow-table function an order-sensitive site belongs to: the function itself, or - for a module-private helper -
     the listed function of the same module from which alone (directly or through such helpers) it is called."""
@@ -858,8 +950,12 @@ def scope_keys(ctx):
     return cg.reachable(roots)
 
 
+_CTX = {}
+
+
 def run(ctx):
     fx, cg = ctx.fx, ctx.cg
+    _CTX["ctx"] = ctx
     seen = scope_keys(ctx)
     ctx.note("scope: %d functions reachable from in_toto_verify / Metablock::verify" % len(seen))
     nsrc = 0
@@ -923,14 +1019,64 @@ def run(ctx):
         n = callee_name(t)
         key = "%s | %s" % (fpath, n)
         found += 1
-        if (fpath, n) in ALLOW_AMBIENT:
+        if n in CLOCKS and _only_compared_with_expiry(fx, k, t):
+            ctx.ok("C13/D2", key, "the expiry guard itself (C06): the clock value is only ever compared with a layout's `expires`; "
+                   "the property fixes an unexpired clock", t["at"])
+        elif (fpath, n) in ALLOW_AMBIENT:
             ctx.ok("C13/D2", key, "allowed: " + ALLOW_AMBIENT[(fpath, n)], t["at"])
         elif n.startswith("ring::rand") and _only_via_signing(cg, fx, seen, k):
             ctx.ok("C13/D2", key, "signing RNG, only reachable through PrivateKey::sign (inspection links are unsigned data, the "
                    "verdict does not depend on signature bytes)", t["at"])
         else:
             ctx.bad("C13/D2", key, "ambient non-determinism read on the verification path: " + " -> ".join(clean(x) for x in cg.chain(seen, k)[:8]), t["at"])
-    ctx.ok("C13/D2", "ambient scan", "%d ambient reads among %d functions in scope, each classified above" % (found, len(seen)))
+    # process-wide mutable state: a static with interior mutability read or written on the verification path makes the verdict
+    # depend on what was verified before (caches, counters, lazily initialised tables)
+    MUT_WRAPPERS = ("Mutex<", "RwLock<", "RefCell<", "Cell<", "Atomic", "OnceLock<", "OnceCell<", "LazyLock<", "Lazy<", "LocalKey<", "UnsafeCell<")
+    statics = {}
+    def walk(n, f):
+        if isinstance(n, dict):
+            if "static" in n and isinstance(n["static"], str):
+                statics.setdefault((n["static"], n.get("ty") or ""), set()).add(clean(f["path"]))
+            for v in n.values():
+                walk(v, f)
+        elif isinstance(n, list):
+            for v in n:
+                walk(v, f)
+    for k in seen:
+        f = fx.fns[k]
+        if not f.get("exp"):
+            walk(f["blocks"], f)
+    mutable = {k: v for k, v in statics.items() if any(w in k[1] for w in MUT_WRAPPERS) or " mut " in k[1]}
+    for (name, ty), users in sorted(mutable.items()):
+        ctx.bad("C13/D2", "static %s" % name, "process-wide mutable state (%s) used on the verification path by %s: the verdict can depend on "
+                "earlier verifications in the same process" % (ty, sorted(users)[:4]))
+    ctx.ok("C13/D2", "ambient scan", "%d ambient reads and %d statics (%d with interior mutability) among %d functions in scope, each classified above" % (
+        found, len(statics), len(mutable), len(seen)))
+
+
+CLOCKS = {"chrono::Utc::now", "chrono::Local::now", "std::time::SystemTime::now"}
+
+
+def _only_compared_with_expiry(fx, k, t):
+    """The value read from the clock flows nowhere but into ordering comparisons whose other operand is an `expires` field."""
+    from .shared import flows_only_to
+    if t["dst"]["p"]:
+        return False
+    b = _CTX["ctx"].region(None, policy="private", key=fx.root_of(fx.fns[k])["key"]) if fx.fns[k]["kind"] != "Closure" else body_of(fx, k)
+    # the same call inside the region (module-private helpers inlined)
+    same = [(i, tt) for (i, tt) in b.calls() if callee_name(tt) == callee_name(t) and tt["at"] == t["at"] and b.blocks[i].get("origin_key", k) == k]
+    if len(same) != 1:
+        return False
+    t = same[0][1]
+    sinks = set()
+    for (i, tt) in b.calls():
+        if callee_name(tt) in ("std::cmp::PartialOrd::lt", "std::cmp::PartialOrd::le", "std::cmp::PartialOrd::gt", "std::cmp::PartialOrd::ge") \
+                and len(tt["args"]) == 2:
+            for ai in (0, 1):
+                lv = b.trace(tt["args"][1 - ai])
+                if lv and all(l.path[-1:] == (("f", "expires"),) for l in lv):
+                    sinks.add((i, ai))
+    return bool(sinks) and not flows_only_to(b, t["dst"]["l"], sinks)
 
 
 def _only_via_signing(cg, fx, seen, k):
